@@ -243,6 +243,8 @@ var c11Stores = []map[string]*string{
 	{"x": sp("0"), "y": sp("08")},
 	{"x": sp("9223372036854775807"), "y": sp("0")},
 	{"x": sp("-7"), "y": sp("1z")},
+	// number syntax of Go that is not number syntax of C or of the shell
+	{"x": sp("0b101"), "y": sp("1_000")},
 }
 
 var (
@@ -357,7 +359,7 @@ func TestC11(t *testing.T) {
 		}
 	}
 	st.Exhaustive = true
-	st.Note("exhaustive: %d trees (every operator over the operand set %v + variables x, y; depth <= 2 with one operand of the outer operator an atom) x %d variable stores (decimal, octal, hex, empty, unset, MinInt64, MaxInt64, garbage) through Eval; every 8th also through parse($((...))) + Expand", idx, lits, len(c11Stores))
+	st.Note("exhaustive: %d trees (every operator over the operand set %v + variables x, y; depth <= 2 with one operand of the outer operator an atom) x %d variable stores (decimal, octal, hex, empty, unset, MinInt64, MaxInt64, garbage, Go-only number syntax) through Eval; every 8th also through parse($((...))) + Expand", idx, lits, len(c11Stores))
 
 	// (b) sampled trees of depth <= 4, random spacing, redundant parentheses
 	n := 80000
@@ -365,7 +367,7 @@ func TestC11(t *testing.T) {
 		n = 20000000
 	}
 	n /= nsh
-	values := []string{"0", "1", "5", "3", "-1", "-7", "010", "0x10", "0XfF", "", "9223372036854775807", "-9223372036854775808", "63", "64", "abc", "1z", "08", "0x", "+2"}
+	values := []string{"0", "1", "5", "3", "-1", "-7", "010", "0x10", "0XfF", "", "9223372036854775807", "-9223372036854775808", "63", "64", "abc", "1z", "08", "0x", "+2", "0b101", "0o17", "1_000", "0x_ff", "0_7", "0B1", "0O7"}
 	numGen := rapid.SampledFrom([]string{"0", "1", "2", "3", "7", "9223372036854775807", "010", "0x1F", "0X7f", "64", "63", "08", "0x", "9223372036854775808", "00", "1234567"})
 	varGen := rapid.SampledFrom(c11Vars)
 	var treeGen func(d int) *rapid.Generator[*ref.ANode]
